@@ -119,7 +119,7 @@ def rule_unbuffered(ctx, rep, rid='R1'):
     offenders = []
     protected = set(x for a_, _, s_ in unbuffered(cad) for x in (dests.get(a_), s_) if x)
     for b in cad.all_bodies:
-        if not (b.file.endswith('udp.rs') or b.file.endswith('unix.rs')):
+        if not any(in_module_of(b, a_) for a_, _, _ in UNBUFFERED_ADTS):
             continue
         for bi, blk in enumerate(b.blocks):
             for si, s in enumerate(blk['stmts']):
@@ -132,7 +132,7 @@ def rule_unbuffered(ctx, rep, rid='R1'):
 def rule_get_addr(ctx, rep, rid='R2'):
     cad = ctx.cad
     # the private resolver: the function of udp.rs that calls ToSocketAddrs::to_socket_addrs
-    bs = [b for b in cad.all_bodies if b.file.endswith('sinks/udp.rs') and b.def_kind in ('Fn', 'AssocFn') and
+    bs = [b for b in cad.all_bodies if in_module_of(b, UNBUFFERED_ADTS[0][0]) and b.def_kind in ('Fn', 'AssocFn') and '::tests::' not in b.path and
           any(callee_is(t, 'ToSocketAddrs>::to_socket_addrs', 'core::net::socket_addr::ToSocketAddrs::to_socket_addrs', 'std::net::socket_addr::ToSocketAddrs::to_socket_addrs') for _, t in b.calls())]
     b = one(rep, rid, 'udp::get_addr', bs)
     if b is None:
